@@ -20,6 +20,7 @@ var StubList = []string{
 	"time.Duration.Milliseconds: executed from SSA (signed division by 1e6)",
 	"math/rand.{New,NewSource,(*Rand).Float64}: arbitrary float in [0,1)",
 	"net/textproto.CanonicalMIMEHeaderKey: native on concrete keys",
+	"encoding/json.Unmarshal(verifJSONDoc(s), &string): yields s or an arbitrary error",
 	"utf8 decoding in range-over-string: exact for ASCII lead bytes, over-approximated (arbitrary rune >= 0x80, width 1..4) otherwise",
 }
 
@@ -171,6 +172,19 @@ func registerStubs(p *Program) {
 		p.stub(n, func(ex *Exec, a []Value) Value { return MkStr("<" + n + ">") })
 	}
 
+	// encoding/json: only documents made by verifJSONDoc are understood
+	p.stub("encoding/json.Unmarshal", func(ex *Exec, a []Value) Value {
+		data := a[0].(SliceVal)
+		if doc, ok := ex.natState["jsondoc"].(*Object); !ok || data.Arr != doc {
+			ex.internal("json.Unmarshal on a document not produced by verifJSONDoc")
+		}
+		if ex.Choose("json.fails", 2) == 1 {
+			return mkFmtErr(ex, "json: cannot decode", SliceVal{})
+		}
+		dst := a[1].(IfaceVal).V.(Ptr)
+		ex.store(dst, ex.natState["jsonstr"])
+		return IfaceVal{}
+	})
 	// net/textproto
 	p.stub("net/textproto.CanonicalMIMEHeaderKey", func(ex *Exec, a []Value) Value {
 		s, ok := a[0].(*StrVal).Concrete()
